@@ -5,7 +5,7 @@ use crate::transaction::{ActionID, MIDGenerator};
 use crate::{
     message::{FindNodeRequest, Message, MessageBody, Request},
     socket::Socket,
-    timer::Timer,
+    timer::{Timeout, Timer},
 };
 use std::{
     sync::{Arc, Mutex},
@@ -19,6 +19,8 @@ pub(crate) struct TableRefresh {
     table: Arc<Mutex<RoutingTable>>,
     id_generator: MIDGenerator,
     curr_refresh_bucket: usize,
+    // Timeout of the next scheduled refresh (if any), so that we never have more than one pending.
+    next_refresh: Option<Timeout>,
 }
 
 impl TableRefresh {
@@ -27,6 +29,7 @@ impl TableRefresh {
             table,
             id_generator,
             curr_refresh_bucket: 0,
+            next_refresh: None,
         }
     }
 
@@ -101,8 +104,15 @@ impl TableRefresh {
             }
         }
 
-        // Start a timer for the next refresh
-        timer.schedule_in(REFRESH_INTERVAL_TIMEOUT, ScheduledTaskCheck::TableRefresh);
+        // Start a timer for the next refresh. This function is called both when the previous
+        // timer fires and whenever a bootstrap completes, so cancel the pending timer (if any) to
+        // keep a single refresh chain.
+        if let Some(timeout) = self.next_refresh.take() {
+            timer.cancel(timeout);
+        }
+
+        self.next_refresh =
+            Some(timer.schedule_in(REFRESH_INTERVAL_TIMEOUT, ScheduledTaskCheck::TableRefresh));
 
         self.curr_refresh_bucket += 1;
     }
